@@ -37,7 +37,7 @@ func genC03(t *rapid.T) C03Case {
 	o := ragen.GenOpt{
 		Rx:       ragen.RxOpt{Stress: 5, MaxDepth: 1},
 		MaxDepth: 2, MaxItems: 6, Flags: true, PrefixSuffix: true, Defs: true, DefsInPS: true,
-		Includes: true, Excepts: true, Pairs: true, IncludeDefs: true, IncludePS: true, Cmdline: true, StoreLoad: true, Noise: true,
+		Includes: true, Excepts: true, Pairs: true, IncludeDefs: true, IncludePS: true, Cmdline: true, StoreLoad: true, Noise: true, TrailWS: true,
 	}
 	g := ragen.GenProgram(t, o)
 	lab := g.Labels
